@@ -923,3 +923,14 @@ Proof.
   f_equal. apply map_ext_in. intros x Hx. apply in_zrange in Hx. apply Hag.
   pose proof (zlen_nonneg d1). lia.
 Qed.
+
+(* Conservation of space in every reachable state: what can be read plus what can be written is always cap-1
+   (one cell is kept free to tell full from empty), and neither is negative. *)
+Theorem space_conserved c ops : 2 <= c ->
+  let s := fst (run (create c) ops) in
+  bytes_readable s + bytes_writeable s = c - 1 /\ 0 <= bytes_readable s /\ 0 <= bytes_writeable s.
+Proof.
+  intros H. pose proof (ring_invariant_reachable c ops H) as I. cbv zeta in *.
+  set (s := fst (run (create c) ops)) in *. destruct I as (Hr & Hroom & Hc).
+  unfold bytes_readable, bytes_writeable. destruct (wp s - rp s >=? cap s) eqn:E; lia.
+Qed.
